@@ -226,7 +226,9 @@ def run(pid, tier, seed, replay=None):
 
     plans = [("mixed", seed, 160 if quick else (20000 if pid == "C01" else 2500), 6), ("unknown", seed + 1, 50 if quick else (6000 if pid == "C01" else 800), 5),
              ("known", seed + 2, 60 if quick else (8000 if pid == "C01" else 1200), 8), ("columns", seed + 3, 120 if quick else (10000 if pid == "C01" else 2500), 6),
-             ("shapes", seed + 4, 50 if quick else (3000 if pid == "C01" else 600), 6)]
+             ("shapes", seed + 4, 50 if quick else (3000 if pid == "C01" else 600), 6),
+             # the edge values of every type, written out (not sampled): under a known spelling, an alias, an unknown class
+             ("boundary", 0, 4 if quick else 40, 6)]
     if pid == "C01":
         # every serializable descriptor of the database (canonical and alias spellings) as a one-property instance
         plans.append(("descriptors", seed + 7, 0, 6))
